@@ -4,6 +4,28 @@ import "verif/internal/eng"
 
 func init() {
 	register(&Property{
+		ID: "C42",
+		Explanation: "Decides the sharing discipline and the completeness plumbing of tree traversals, not exactly-once processing under every schedule: (visited-set) at every StreamTrees call site (FindUsedBlobs, checker.Structure, copyTree) the skip function tests and inserts the handle {ID: treeID, Type: TreeBlob} into one set, inserts on every path, returns the result of the test; if the worker side (process literal, its nested literals, sibling closures it calls and same-package callees) touches the same set, the test and the insert lie in one critical section of a mutex that every worker-side access holds too; FindUsedBlobs inserts every element of node.Content of file nodes as a DataBlob handle; (traversal-complete) subtreesCollector cannot move to the next node of a directory with a subtree ID without recording it; filterTrees appends every non-null subtree ID it is handed to the backlog, asks skip about the popped tree before choosing a loader queue; loadTreeWorker passes LoadTree's error to process, reports a tree to the scheduler only after process returned nil and aborts with the error otherwise; used-blobs-errors (C09) covers the callers' error handling. Not decided: the scheduler's termination counting, huge-tree routing, and exactly-once processing when two roots share a subtree that is in flight.",
+		Assumptions: commonAssumptions,
+		Technique:   "static analysis: must-hold locksets across closures + test-and-set shape + path-sensitive reachability (go/ssa)",
+		Run: func(c *eng.Ctx) {
+			ruleVisitedSet(c)
+			ruleTraversalComplete(c)
+		},
+		Controls: []Control{
+			{Name: "insert-outside-critical-section", File: "internal/data/find.go",
+				Old: "		blobs.Insert(h)\n		lock.Unlock()\n", New: "		lock.Unlock()\n		blobs.Insert(h)\n", Rule: "visited-set"},
+			{Name: "copy-skip-forgets-to-mark", File: "cmd/restic/cmd_copy.go",
+				Old: "		visitedTrees.Insert(handle)\n		return visited", New: "		if visited {\n			visitedTrees.Insert(handle)\n		}\n		return visited", Rule: "visited-set"},
+			{Name: "data-blobs-inserted-unlocked", File: "internal/data/find.go",
+				Old: "			lock.Lock()\n			switch item.Node.Type {", New: "			switch item.Node.Type {", Rule: "visited-set"},
+			{Name: "collector-skips-hardlinked-dirs", File: "internal/data/tree_stream.go",
+				Old: "item.Node.Type == NodeTypeDir && item.Node.Subtree != nil {", New: "item.Node.Type == NodeTypeDir && item.Node.Subtree != nil && item.Node.Links <= 1 {", Rule: "traversal-complete"},
+			{Name: "process-error-ignored-when-tree-loaded", File: "internal/data/tree_stream.go",
+				Old: "		err = process(treeID.ID, err, tree)\n		if err != nil {", New: "		err = process(treeID.ID, err, tree)\n		if err != nil && tree == nil {", Rule: "traversal-complete"},
+		},
+	})
+	register(&Property{
 		ID: "C41",
 		Explanation: "Decides the structural clauses of the tree encoding, not byte-level losslessness for arbitrary values: (ordered-insert) in TreeJSONBuilder.AddNode, with the comparison of node.Name against builder.lastName specialised to 'not strictly greater', neither a write to the buffer nor the update of lastName is reachable; lastName is set to node.Name on every path to the payload write, which is json.Marshal(node); the archiver sorts directory entries (dirToNodeAndEntries) and target names (tree.NodeNames) before saving; (marshal-siblings) Node.MarshalJSON rewrites exactly Name and LinkTargetRaw besides the time fields and Node.UnmarshalJSON restores exactly Name, LinkTarget and LinkTargetRaw; Name is Quote'd on the way out and Unquote'd (error reported) on the way in; the raw link target is stored exactly when the target is invalid UTF-8 and overrides LinkTarget when present; every time.Time field of Node (enumerated from the struct type) is clamped with fixTime before encoding, and fixTime takes Year() of the value it shifts and returns, with bounds 0 and 9999, shifting with AddDate; (equals-coverage) Node.Equals and its same* helpers read every serialised field (enumerated from the struct tags; exceptions LinkTargetRaw and Path). Not decided: that encoding/json and strconv round-trip every byte sequence, attribute value encodings, and the decoder's skipping of unknown keys.",
 		Assumptions: commonAssumptions,
